@@ -272,7 +272,10 @@ class FitWorld:
                     algo = self.algo
                     if not self.model.is_initialized:
                         torch.manual_seed(cfg["gseed"] & 0x7FFFFFFF)
-                        self.model.initialize(self.dataset)
+                        try:
+                            self.model.initialize(self.dataset)
+                        except Exception as e_init:      # (e.g. the Weibull initialisation of a joint model not converging on this cohort)
+                            raise RerunSetupFailed(f"{type(e_init).__name__}: {e_init}") from None
                     self.state = self.model.state
                     self._emit("on_start")
                     algo.run(self.model, self.dataset)
@@ -312,6 +315,10 @@ class FitWorld:
 
 class _RerunDone(Exception):
     pass
+
+
+class RerunSetupFailed(Exception):
+    """The fresh model of a second run could not be initialised: nothing of the second run was executed."""
 
 
 def gen_fit_cfg(st: Stream, *, kinds=None, max_iter=12, allow_mixture=False) -> dict:
